@@ -177,7 +177,7 @@ class OraBuilder(SQLBuilder):
                 indent0 = ''
                 x = 't.*'
 
-            if not limit and not offset:
+            if limit is None and not offset:
                 pass
             elif not offset:
                 result = [ indent0, 'SELECT * FROM (\n' ]
